@@ -840,6 +840,37 @@ func vfGenConcCase(t *rapid.T, p *vfConcProfile, maxG int) *vfConcCase {
 				i += 4
 				continue
 			}
+			if (p.id == "C01" || p.id == "C02" || p.id == "C04" || p.id == "C08") && rapid.IntRange(0, 24).Draw(t, "setburst") == 0 {
+				// a burst of writes to two hot keys: with a small write buffer and a slow applier many of them meet a full
+				// buffer while other goroutines do the same
+				nb := rapid.IntRange(10, 40).Draw(t, "burstlen")
+				hk := owned
+				if p.id == "C05" {
+					hk = 2 * owned
+				}
+				for b := 0; b < nb; b++ {
+					k := hk + b%2
+					if k >= c.Keys {
+						k = c.Keys - 1
+					}
+					prog = append(prog, vfCOp{Kind: "set", Key: k, Cost: int64(b % 2)})
+				}
+				i += nb - 1
+				continue
+			}
+			if p.id == "C08" && rapid.IntRange(0, 29).Draw(t, "expiredel") == 0 {
+				// entries that expire, a sleep past their bucket, wake-up exactly at the expiry tick, then their Del
+				nk := rapid.IntRange(2, 5).Draw(t, "nexp")
+				for b := 0; b < nk; b++ {
+					prog = append(prog, vfCOp{Kind: "set", Key: (owned + b) % c.Keys, Cost: 1, TTL: int64(rapid.IntRange(1, 900).Draw(t, "expttl")) * int64(time.Millisecond)})
+				}
+				prog = append(prog, vfCOp{Kind: "wait"}, vfCOp{Kind: "sleep", N: 1100}, vfCOp{Kind: "ticksync"})
+				for b := 0; b < nk; b++ {
+					prog = append(prog, vfCOp{Kind: "del", Key: (owned + b) % c.Keys})
+				}
+				i += 2*nk + 2
+				continue
+			}
 			op := vfCOp{Kind: kind}
 			priv := owned
 			if p.id == "C05" {
@@ -1096,6 +1127,152 @@ func TestVfReplay_Conc(t *testing.T) {
 		vs, _ := vfConcOracles(c, h)
 		if v, _ := vfPick(vs, c.Profile); v != nil {
 			t.Fatalf("%s", vfFail(c.Profile, "cacheconc", v.Sig, map[string]any{"case": c, "history": h}, "%s", v.Msg))
+		}
+	}
+}
+
+// ---- C01 stress: volume instead of bookkeeping --------------------------------------------------------------
+//
+// The history engine above stamps every call, which serialises the goroutines a little. Some provenance failures need
+// two Sets to overlap within a few nanoseconds; for those this stage trades the history for raw volume: every value
+// carries the key it was written under in its upper half, and readers only check that. Real time, no bubble.
+
+type vfStressCase struct {
+	Goroutines int      `json:"goroutines"`
+	Keys       int      `json:"keys"`
+	SetBufSize int      `json:"set_buf_size"`
+	MaxCost    int64    `json:"max_cost"`
+	Collide    bool     `json:"collide"`
+	StallMs    int      `json:"applier_stall_ms"`
+	Millis     int      `json:"millis"`
+	Seeds      []uint64 `json:"seeds"`
+}
+
+func vfRunStress(c *vfStressCase) (ops int64, hits int64, bad string) {
+	old := setBufSize
+	setBufSize = c.SetBufSize
+	defer func() { setBufSize = old }()
+	gate := make(chan struct{})
+	var gateOnce sync.Once
+	conf := &Config[uint64, uint64]{NumCounters: 1024, MaxCost: c.MaxCost, BufferItems: 64, IgnoreInternalCost: true,
+		Cost: func(v uint64) int64 {
+			<-gate // the applier is held here until the gate opens: the write buffer stays full meanwhile
+			return 1
+		}}
+	if c.Collide {
+		conf.KeyToHash = func(k uint64) (uint64, uint64) { return 7 + k%2, k + 1 }
+	}
+	cache, err := NewCache(conf)
+	if err != nil {
+		panic(err)
+	}
+	defer func() {
+		gateOnce.Do(func() { close(gate) })
+		cache.Close()
+	}()
+	for k := 0; k < c.Keys; k++ {
+		cache.Set(uint64(k+1), uint64(k+1)<<32, 1)
+	}
+	if c.StallMs == 0 {
+		gateOnce.Do(func() { close(gate) })
+		cache.Wait()
+	} else {
+		// make the keys resident first, then stall
+		go func() {
+			time.Sleep(time.Duration(c.StallMs) * time.Millisecond)
+			gateOnce.Do(func() { close(gate) })
+		}()
+	}
+	deadline := time.Now().Add(time.Duration(c.Millis) * time.Millisecond)
+	var wg sync.WaitGroup
+	var nops, nhits atomic.Int64
+	var badMu sync.Mutex
+	for g := 0; g < c.Goroutines; g++ {
+		wg.Add(1)
+		go func(g int) {
+			defer wg.Done()
+			x := c.Seeds[g%len(c.Seeds)] | 1
+			var n, h int64
+			ctr := uint64(g) << 24
+			for i := 0; ; i++ {
+				if i&1023 == 0 && time.Now().After(deadline) {
+					break
+				}
+				x ^= x << 13
+				x ^= x >> 7
+				x ^= x << 17
+				k := uint64(1 + int(x>>8)%c.Keys)
+				switch x & 3 {
+				case 0, 1:
+					ctr++
+					cache.Set(k, k<<32|(ctr&0xffffffff), int64(x>>4&1))
+				case 2:
+					if v, ok := cache.Get(k); ok {
+						h++
+						if v>>32 != k {
+							badMu.Lock()
+							if bad == "" {
+								bad = fmt.Sprintf("Get(%d) returned a value written under key %d (raw %#x)", k, v>>32, v)
+							}
+							badMu.Unlock()
+							return
+						}
+					}
+				default:
+					if x>>40&15 == 0 {
+						cache.Del(k)
+					} else if v, ok := cache.Get(k); ok && v>>32 != k {
+						badMu.Lock()
+						if bad == "" {
+							bad = fmt.Sprintf("Get(%d) returned a value written under key %d (raw %#x)", k, v>>32, v)
+						}
+						badMu.Unlock()
+						return
+					}
+				}
+				n++
+			}
+			nops.Add(n)
+			nhits.Add(h)
+		}(g)
+	}
+	wg.Wait()
+	return nops.Load(), nhits.Load(), bad
+}
+
+func TestVf_C01_Stress(t *testing.T) {
+	ev := vfNewEvidence(t, "C01")
+	rapid.Check(t, func(t *rapid.T) {
+		c := &vfStressCase{
+			Goroutines: rapid.SampledFrom([]int{4, 8, 16, 16}).Draw(t, "goroutines"),
+			Keys:       rapid.SampledFrom([]int{2, 4, 16}).Draw(t, "keys"),
+			SetBufSize: rapid.SampledFrom([]int{1, 2, 8, 64}).Draw(t, "setBufSize"),
+			MaxCost:    rapid.SampledFrom([]int64{4, 64, 1 << 20}).Draw(t, "maxCost"),
+			Collide:    rapid.IntRange(0, 3).Draw(t, "collide") == 0,
+			StallMs:    rapid.SampledFrom([]int{0, 50, 150, 250}).Draw(t, "stallMs"),
+			Millis:     250,
+		}
+		for i := 0; i < 4; i++ {
+			c.Seeds = append(c.Seeds, rapid.Uint64Range(1, 1<<62).Draw(t, "seed"))
+		}
+		ops, hits, bad := vfRunStress(c)
+		if bad != "" {
+			t.Fatalf("%s", vfFail("C01", "stress", "C01/value-of-other-key/stress", c, "%s", bad))
+		}
+		ev.Class("stress:operations", int(ops))
+		ev.Case(hits > 1000 && c.StallMs > 0, vfHash(c.Goroutines, c.Keys, c.SetBufSize, c.MaxCost, c.Collide, c.StallMs, c.Seeds[0]), "stress-case")
+		ev.Sample(hits > 1000, func() any { return map[string]any{"stress": c, "operations": ops, "hits_checked": hits} })
+	})
+}
+
+func TestVfReplay_C01Stress(t *testing.T) {
+	var c vfStressCase
+	if !vfLoadReplay(t, &c) {
+		return
+	}
+	for i := 0; i < 20; i++ {
+		if _, _, bad := vfRunStress(&c); bad != "" {
+			t.Fatalf("%s", vfFail("C01", "stress", "C01/value-of-other-key/stress", &c, "%s", bad))
 		}
 	}
 }
